@@ -1,9 +1,7 @@
 import Gaftools.Props.C03
-import Gaftools.Props.TieA
 import Gaftools.Props.Glue2
 #print axioms Gaftools.C03.index_exact
 #print axioms Gaftools.C03.sortNat_sorted
 #print axioms Gaftools.C03.mem_sortNat
 #print axioms Gaftools.C03.selectNodes_exact
-#print axioms Gaftools.TieA.isStable_gen_eq_model
 #print axioms Gaftools.Glue.goodGraph_of_valid
